@@ -452,6 +452,9 @@ def residual_consistent_with_root(Fn, Fn_initial, x, J, tol):
     a point that close to a root would have (given the jacobian `J`) and has dropped relative to the residual of
     the initial guess.
     """
+    if not bool(D.ar_numpy.isfinite(Fn)):
+        # (a residual that overflowed passes every comparison with a bound that overflowed as well)
+        return False
     xtol = tol * (x.shape[0] + D.ar_numpy.linalg.norm(x))
     return bool(Fn <= xtol * D.ar_numpy.maximum(1.0, D.ar_numpy.linalg.norm(J)) and Fn <= tol * (J.shape[0] + Fn_initial))
 
